@@ -179,6 +179,7 @@ func runC08(b *Batch) {
 			continue
 		}
 		c08Case(b, i)
+		collectGarbage(i)
 	}
 }
 
